@@ -25,6 +25,8 @@ REPS = {
     'U4s': ['uD800', 'udfff', 'uDBFF'], 'U8': ['U0001F600', 'U00000041', 'U0010FFFF', 'U0000e000'],
     'U8s': ['U0000D800', 'U0000dfff'], 'U8big': ['U00110000', 'U7FFFFFFF', 'U00200000', 'U01000000'],
     'U8huge': ['U80000000', 'UFFFFFFFF', 'Uf0000000'],
+    'NX': ['0x' + 'f' * 40, '0x' + '0123456789abcdefABCD' * 2, '0X' + '1a' * 20], 'NB': ['0b' + '1' * 40, '0b' + '10' * 20],
+    'NO': ['0o' + '7' * 40, '00' + '01234567' * 5], 'ND': ['1' * 40, '9876543210' * 4, '0' * 40], 'NU': ['1_' * 20, '0_' * 20],
     'YAML': ['YAML'], 'TAG': ['TAG'], 'L': ['k' * 1024, 'Z' * 1024], 'DBIG': ['1' * 4301, '7' * 4301],
     'P1': ['%41', '%7e', '%20', '%2F'], 'P2a': ['%C3', '%c3', '%C2', '%DF'], 'P2b': ['%A9', '%a9', '%80', '%BF'],
     'Pbad': ['%FF', '%FE', '%f8'],
